@@ -1,11 +1,16 @@
 // c05: printing and parsing are inverse for types and literal values.
 //
 // G  generators (gen.go): all short strings over the nasty alphabet + random longer ones (bytes, not characters),
-//    regexp sources, extreme integers and floats, literal values and types built through the Go constructors.
+//
+//	regexp sources, extreme integers and floats, literal values and types built through the Go constructors.
+//
 // D  direct check on the implementation (this file): print, parse the text back, compare with Equals, print again.
-//    Every implementation call runs in a child process under a deadline (worker.go).
+//
+//	Every implementation call runs in a child process under a deadline (worker.go).
+//
 // M  model tie (emit.go): the printed text and the lexed payload against puppet_quote / regexp_quote / format_int /
-//    lex_string / lex_regexp / lex_number / parse_int0 of coq/Model/QuoteLex.v, printed types against coq/Model/TypePrint.v.
+//
+//	lex_string / lex_regexp / lex_number / parse_int0 of coq/Model/QuoteLex.v, printed types against coq/Model/TypePrint.v.
 package main
 
 import (
@@ -27,14 +32,14 @@ var workerFlag = flag.Bool("worker", false, "serve implementation calls on stdin
 
 // input: what a replay file holds
 type input struct {
-	Kind   string     `json:"kind"` // string | regexp | int | float | value | type | lex
-	Hex    string     `json:"hex,omitempty"`
-	Text   string     `json:"text,omitempty"` // for the reader only
-	Int    string     `json:"int,omitempty"`
-	Bits   string     `json:"bits,omitempty"`
-	Value  *lat.VSpec `json:"value,omitempty"`
-	Recipe *Recipe    `json:"recipe,omitempty"`
-	Family string     `json:"family,omitempty"`
+	Kind   string  `json:"kind"` // string | regexp | int | float | value | type | lex
+	Hex    string  `json:"hex,omitempty"`
+	Text   string  `json:"text,omitempty"` // for the reader only
+	Int    string  `json:"int,omitempty"`
+	Bits   string  `json:"bits,omitempty"`
+	Value  *VR     `json:"value,omitempty"`
+	Recipe *Recipe `json:"recipe,omitempty"`
+	Family string  `json:"family,omitempty"`
 }
 
 func (in input) bytes() string {
@@ -59,6 +64,10 @@ func (in input) req() Req {
 		return Req{"T", in.Recipe.json()}
 	case "lex":
 		return Req{"L", in.bytes()}
+	case "ptype":
+		return Req{"P", in.bytes()}
+	case "pvalue":
+		return Req{"Q", in.bytes()}
 	}
 	panic("unknown input kind " + in.Kind)
 }
@@ -150,11 +159,29 @@ func generate(cfg *lib.Config, rng *lib.Rng) []input {
 	}
 	// literal values
 	for _, v := range cornerValues() {
-		ins = append(ins, input{Kind: "value", Value: v, Family: "corner"})
+		ins = append(ins, input{Kind: "value", Value: fromVSpec(v), Family: "corner"})
+	}
+	// the same instance at several positions (aliasing), the library's shared empties, every construction route
+	for _, v := range sharedCorners() {
+		ins = append(ins, input{Kind: "value", Value: v, Family: "shared"})
+	}
+	for _, v := range routeCorners() {
+		ins = append(ins, input{Kind: "value", Value: v, Family: "route"})
 	}
 	for i := 0; i < nRandVal; i++ {
 		r := rng.Fork()
-		ins = append(ins, input{Kind: "value", Value: randomValue(r, 1+r.Intn(3)), Family: "random"})
+		v := fromVSpec(randomValue(r, 1+r.Intn(3)))
+		if i%4 == 1 {
+			ins = append(ins, input{Kind: "value", Value: withRoutes(r, v), Family: "random-shared"})
+		} else if i%4 == 3 {
+			ins = append(ins, input{Kind: "value", Value: randomSharedValue(r), Family: "random-shared"})
+		} else {
+			ins = append(ins, input{Kind: "value", Value: v, Family: "random"})
+		}
+	}
+	// literal values given by their text (built by the parser)
+	for _, t := range pvalueCorpus() {
+		ins = append(ins, strInput("pvalue", t, "corpus"))
 	}
 	// types
 	for _, t := range cornerTypes() {
@@ -170,7 +197,32 @@ func generate(cfg *lib.Config, rng *lib.Rng) []input {
 	}
 	for i := 0; i < nRandType; i++ {
 		r := rng.Fork()
-		ins = append(ins, input{Kind: "type", Recipe: randomRecipe(r, 1+r.Intn(3)), Family: "random"})
+		t := randomRecipe(r, 1+r.Intn(3))
+		fam := "random"
+		// other construction routes: one instance for equal sub-types; the type the parser builds from the text
+		switch i % 4 {
+		case 1:
+			t.Via, fam = "shared", "random-shared"
+		case 3:
+			t.Via, fam = "parsed", "random-parsed"
+		}
+		ins = append(ins, input{Kind: "type", Recipe: t, Family: fam})
+	}
+	for _, t := range cornerTypes() {
+		c := *t
+		c.Via = "parsed"
+		ins = append(ins, input{Kind: "type", Recipe: &c, Family: "corner-parsed"})
+	}
+	for _, t := range cornerTypes() {
+		if len(t.Sub) > 1 || t.Ret != nil || t.Block != nil {
+			c := *t
+			c.Via = "shared"
+			ins = append(ins, input{Kind: "type", Recipe: &c, Family: "corner-shared"})
+		}
+	}
+	// types given by their text: every argument form the creators accept
+	for _, t := range ptypeCorpus() {
+		ins = append(ins, strInput("ptype", t, "corpus"))
 	}
 	// the lexer alone: literal texts, well-formed and not
 	for _, t := range lexCorpus() {
@@ -315,12 +367,15 @@ func typeTags(t *Recipe) []string {
 	return out
 }
 
-func valueTags(v *lat.VSpec) []string {
+func valueTags(v *VR) []string {
 	tags := map[string]bool{}
-	var rec func(v *lat.VSpec)
-	rec = func(v *lat.VSpec) {
+	var rec func(v *VR)
+	rec = func(v *VR) {
 		if v == nil {
 			return
+		}
+		for _, e := range v.Let {
+			rec(e)
 		}
 		if (v.K == "Str" || v.K == "Regexp") && hasRune(v.S, utf8.RuneError) {
 			tags["payload-with-U+FFFD"] = true
@@ -362,35 +417,17 @@ func exactStringPrintsAsString(t *Recipe, parent string) bool {
 	return exactStringPrintsAsString(t.Ret, t.K) || exactStringPrintsAsString(t.Block, t.K)
 }
 
-func valueHasExactString(v *lat.VSpec) bool {
-	if v == nil {
-		return false
-	}
-	if v.T != nil && exactStringPrintsAsString(fromSpec(v.T), "") {
-		return true
-	}
-	for _, e := range v.Sub {
-		if valueHasExactString(e) {
-			return true
+func valueHasExactString(v *VR) bool {
+	found := false
+	v.walk(func(x *VR) {
+		if x.T != nil && exactStringPrintsAsString(fromSpec(x.T), "") {
+			found = true
 		}
-	}
-	return false
+	})
+	return found
 }
 
-func valueHas(v *lat.VSpec, kind string) bool {
-	if v == nil {
-		return false
-	}
-	if v.K == kind {
-		return true
-	}
-	for _, e := range v.Sub {
-		if valueHas(e, kind) {
-			return true
-		}
-	}
-	return false
-}
+func valueHas(v *VR, kind string) bool { return v.has(kind) }
 
 func evaluate(cfg *lib.Config, res *lib.Result, in input, o Obs, em *emitter, idx int) {
 	res.Evaluations++
@@ -444,7 +481,7 @@ func evaluate(cfg *lib.Config, res *lib.Result, in input, o Obs, em *emitter, id
 			violate("equal", fmt.Sprintf("%s prints as %q; comparing the parsed result fails: %s", what, text, o.Aux["eqclass"]), tags)
 		case o.Aux["equal"] != "true":
 			violate("equal", fmt.Sprintf("%s prints as %q, which parses to something not equal to it (that prints as %q)", what, text, unhex(o.Aux["text2"])), tags)
-		case in.Kind == "type" && unhex(o.Aux["text2"]) != text:
+		case (in.Kind == "type" || in.Kind == "ptype") && unhex(o.Aux["text2"]) != text:
 			violate("prints-same", fmt.Sprintf("%s prints as %q, the parsed type prints as %q", what, text, unhex(o.Aux["text2"])), tags)
 		default:
 			return true
@@ -503,7 +540,7 @@ func evaluate(cfg *lib.Config, res *lib.Result, in input, o Obs, em *emitter, id
 		em.addFloat(in, o)
 	case "value":
 		if o.Class == "nobuild" {
-			res.Count("value.nobuild")
+			res.Count("value.nobuild." + in.Family)
 			return
 		}
 		b, _ := json.Marshal(in.Value)
@@ -513,7 +550,9 @@ func evaluate(cfg *lib.Config, res *lib.Result, in input, o Obs, em *emitter, id
 		case valueHas(in.Value, "Sensitive"):
 			res.Count("value.excluded.sensitive")
 		default:
-			if roundTrip(valueTags(in.Value), "the value "+string(b)) && len(in.Value.Sub) > 0 {
+			if !roundTrip(valueTags(in.Value), "the value "+string(b)) {
+				em.failed = true
+			} else if len(in.Value.Sub) > 0 || len(in.Value.Let) > 0 {
 				res.Nontrivial("v:" + string(b))
 			}
 		}
@@ -532,10 +571,46 @@ func evaluate(cfg *lib.Config, res *lib.Result, in input, o Obs, em *emitter, id
 			em.failed = true
 		}
 		em.addType(in, o)
+	case "pvalue":
+		if o.Class == "nobuild" {
+			res.Count("pvalue.not-a-value")
+			if !strings.HasPrefix(o.Aux["buildclass"], "reported:") {
+				violate("parses", fmt.Sprintf("the value text %q: the parser/resolver escapes with %s %s", in.bytes(), o.Aux["buildclass"], o.Msg), nil)
+			}
+			return
+		}
+		if roundTrip(nil, fmt.Sprintf("the value that %q parses to", in.bytes())) {
+			res.Nontrivial("q:" + in.bytes())
+		} else {
+			em.failed = true
+		}
+		em.addValue(in, o)
+	case "ptype":
+		em.addCreate(in, o)
+		if o.Class == "nobuild" {
+			res.Count("ptype.not-a-type")
+			if !strings.HasPrefix(o.Aux["buildclass"], "reported:") {
+				// the creators answer with a reported issue; anything else is a fault on the way to the type
+				violate("parses", fmt.Sprintf("the type text %q: the parser/creator escapes with %s %s", in.bytes(), o.Aux["buildclass"], o.Msg), nil)
+			}
+			return
+		}
+		if roundTrip(ptypeTags(in.bytes()), fmt.Sprintf("the type that %q parses to", in.bytes())) {
+			res.Nontrivial("p:" + in.bytes())
+		} else {
+			em.failed = true
+		}
+		em.addType(in, o)
 	case "lex":
 		em.addLex(in, in.bytes(), o)
 	}
-	if in.Kind == "value" || in.Kind == "type" || in.Kind == "lex" {
+	if in.Kind == "value" {
+		em.addValue(in, o)
+		if o.Aux["hshared"] != "" && o.Aux["hshared"] != "0" {
+			res.Count("value.with-aliased-container." + in.Family)
+		}
+	}
+	if in.Kind == "value" || in.Kind == "type" || in.Kind == "lex" || in.Kind == "ptype" || in.Kind == "pvalue" {
 		em.addParse(in, o)
 	}
 	if idx%997 == 3 {
@@ -545,7 +620,7 @@ func evaluate(cfg *lib.Config, res *lib.Result, in input, o Obs, em *emitter, id
 
 func describe(in input) string {
 	switch in.Kind {
-	case "string", "regexp", "lex":
+	case "string", "regexp", "lex", "ptype", "pvalue":
 		return fmt.Sprintf("%s %q", in.Kind, in.bytes())
 	case "int":
 		return "integer " + in.Int
